@@ -240,14 +240,14 @@ def run(ctx):
         ctx.machinery("actions never taken: %s" % missing)
     ctx.set_cover(action_coverage={a: v for a, v in cov.coverage.items() if v[1] > 0 and a != "DepthBound"})
     # behaviours for replay
-    histlen = 18 if quick else 26
+    histlen = 18 if quick else 22
     want = 2500 if quick else 40000
     hists = []
     for happy in (False, True):
         simcfg = cfg_for("SimSpec", False, "  HistLen = %d\nINVARIANTS EmitHist %s\nCONSTRAINT StopAtLen\n" % (histlen, " ".join(PROPS_INV)),
                          maxjobs=6, atomic=True, happy=happy)
-        sim = run_wrapped(ctx, "sim%d" % happy, "RenderStatusSim", 99, simcfg, simulate=max(10, want // (2 * ctx.ncpu)),
-                          depth=histlen + 1, timeout=1200)
+        sim = run_wrapped(ctx, "sim%d" % happy, "RenderStatusSim", 99, simcfg, simulate=max(2, want // 400),
+                          depth=histlen + 1, timeout=2400, heap="20g")
         if not sim.ok:
             ctx.machinery("simulation failed: %s %s\n%s" % (sim.kind, sim.name, sim.out[-1500:]))
         hists += sim.emitted[:want // 2]
